@@ -1,19 +1,25 @@
 // C26: multi-DB routing is deterministic and isolating.
 //
 // A case is a routing table (default route, exact routes with nested paths, pattern routes), a
-// set of underlying producers, a request sequence with repeats, a restart and a mutated table.
+// set of underlying producers, two histories of opens and database drops (before and after a
+// restart) and mutated tables.
 // Oracle (DESIGN.md §4 C26):
 //   - RouteOf(req) is equal across repeated calls, before and after opens, and across >= 20
 //     producers freshly constructed from the same table (map iteration order differs between
 //     constructions);
-//   - an open is refused exactly when the harness' own record of successful opens holds another
-//     request in the same (type, name) whose table is prefix-related; stores of different
-//     requests never see each other's marker keys (checked through the stores and in the raw
-//     backend databases);
-//   - re-opening a request on the same producer and on a restarted producer reaches the same
-//     database and table (the marker written at the first open is read back);
-//   - Verify() of a producer with a (mutated) table fails exactly when some request recorded by
-//     a successful open is now routed to a different type, name or table.
+//   - the model keeps the requests currently recorded per database: a successful open records the
+//     request; Close()+Drop() of a store drops the whole (type, name) database unless the route of
+//     that store has NoDrop, i.e. every request of that database loses its data and its record
+//     (every handle of the database is closed first; Drop through a NoDrop route changes nothing);
+//   - an open is refused exactly when the model holds, at that time, another request in the same
+//     (type, name) whose table is prefix-related - so a request is accepted again in a re-created
+//     database and starts with an empty store; stores of different requests never see each
+//     other's marker keys (checked through the stores and in the raw backend databases);
+//   - re-opening a request on the same producer and on a restarted producer (in an order that is
+//     independent of the first history) reaches the same database and table (the marker written
+//     when the request was recorded is read back);
+//   - Verify() of a producer with a (mutated) table, right after the restart and at the end, fails
+//     exactly when some currently recorded request is now routed to a different type, name or table.
 package c26
 
 import (
@@ -420,7 +426,8 @@ type record struct {
 }
 
 type model struct {
-	records []record // successful opens, in order
+	records []record // requests currently recorded: successful opens, in order, minus those whose database was dropped since
+	nextIdx int      // next marker index (never reused)
 }
 
 func (m *model) find(req string) *record {
@@ -493,7 +500,9 @@ type caseInfo struct {
 	wild     bool
 	kind     string
 	table    tableSpec
-	requests []string
+	requests []string // requests of steps, in order
+	steps    []step   // history of the first run of the node
+	steps2   []step   // history after the restart
 	log      []string
 }
 
@@ -502,7 +511,7 @@ func (c *caseInfo) logf(format string, a ...interface{}) {
 }
 
 func (c *caseInfo) String() string {
-	return fmt.Sprintf("backends=%s\n%s\nrequests: %q\nsteps:\n    %s", c.kind, c.table, c.requests, strings.Join(c.log, "\n    "))
+	return fmt.Sprintf("backends=%s\n%s\nhistory: %s\nhistory after restart: %s\nsteps:\n    %s", c.kind, c.table, fmtSteps(c.steps), fmtSteps(c.steps2), strings.Join(c.log, "\n    "))
 }
 
 // construct builds n producers from fresh maps of the same table. All constructions must agree
@@ -578,6 +587,42 @@ func uniq(reqs []string) []string {
 	return res
 }
 
+// step is one operation of a history: OpenDB(Req) and, when Drop is set and the open succeeded,
+// Close of every handle of that database followed by Drop through the handle of Req.
+type step struct {
+	Req  string
+	Drop bool
+}
+
+func genSteps(t *rapid.T, pool []string, min, max int, label string) []step {
+	n := rapid.IntRange(min, max).Draw(t, label+".n")
+	res := make([]step, n)
+	for i := range res {
+		res[i].Req = rapid.SampledFrom(pool).Draw(t, label+".next")
+		res[i].Drop = rapid.IntRange(0, 4).Draw(t, label+".drop") == 0
+	}
+	return res
+}
+
+func fmtSteps(steps []step) string {
+	parts := make([]string, len(steps))
+	for i, s := range steps {
+		parts[i] = fmt.Sprintf("%q", s.Req)
+		if s.Drop {
+			parts[i] += "+drop"
+		}
+	}
+	return "[" + strings.Join(parts, " ") + "]"
+}
+
+// handle is one store returned by OpenDB of the current producer.
+type handle struct {
+	req    string
+	loc    dbLoc
+	db     kvdb.Store
+	closed bool
+}
+
 func routingProperty(t *rapid.T, wild bool, st *stats.Collector) {
 	c := &caseInfo{wild: wild}
 	if wild {
@@ -586,7 +631,7 @@ func routingProperty(t *rapid.T, wild bool, st *stats.Collector) {
 		c.table = genTable(t)
 	}
 	c.kind = rapid.SampledFrom([]string{kindFlaggedMem, kindFlaggedCrash, kindPlainCrash, kindPlainCrash}).Draw(t, "backends")
-	// request pool (distinct requests) and a sequence with repeats
+	// request pool (distinct requests) and two histories with repeats and drops (before / after the restart)
 	nPool := rapid.IntRange(2, 6).Draw(t, "nPool")
 	pool := make([]string, nPool)
 	for i := range pool {
@@ -605,9 +650,10 @@ func routingProperty(t *rapid.T, wild bool, st *stats.Collector) {
 			pool[i] = genRequestFor(t, c.table)
 		}
 	}
-	nSeq := rapid.IntRange(3, 10).Draw(t, "nSeq")
-	for i := 0; i < nSeq; i++ {
-		c.requests = append(c.requests, rapid.SampledFrom(pool).Draw(t, "next"))
+	c.steps = genSteps(t, pool, 3, 10, "seq")
+	c.steps2 = genSteps(t, pool, 2, 8, "seq2")
+	for _, s := range c.steps {
+		c.requests = append(c.requests, s.Req)
 	}
 	e := newEnv(c.kind)
 	defer e.cleanup()
@@ -619,7 +665,7 @@ func routingProperty(t *rapid.T, wild bool, st *stats.Collector) {
 	// ---- 1. construction and route determinism
 	ps := construct(t, c, e, c.table, nFresh)
 	if len(ps) == 0 {
-		st.Case(stats.Hash(c.table.String(), c.requests), false, "table_rejected")
+		st.Case(stats.Hash(c.table.String(), fmtSteps(c.steps), fmtSteps(c.steps2)), false, "table_rejected")
 		return
 	}
 	probes := uniq(append(append([]string{}, c.requests...), pool...))
@@ -637,60 +683,159 @@ func routingProperty(t *rapid.T, wild bool, st *stats.Collector) {
 		nontrivial = true
 	}
 
-	// ---- 2. opens on producer 0 against the model
-	p0 := ps[0]
+	// ---- 2. histories against the model
 	m := &model{}
-	stores := map[string]kvdb.Store{} // latest store per recorded request
-	refusedOverlap, reopened := 0, 0
-	runSequence := func(p *multidb.Producer, phase string) {
-		for _, req := range c.requests {
-			r := p.RouteOf(req)
-			if r != routes[req] {
-				t.Fatalf("C26: RouteOf(%q) changed from %+v to %+v (%s)\n%s", req, routes[req], r, phase, c)
+	var (
+		cur     *multidb.Producer      // the producer of the current run of the node
+		handles []*handle              // every store the current producer returned
+		stores  = map[string]*handle{} // latest open store per request
+		dropped = map[string]record{}  // requests whose database was dropped since they were recorded (current producer)
+		ghosts  []record               // every record removed by a drop
+	)
+	var (
+		refusedOverlap, reopened, opensRecorded                      int
+		shared, anyDrop, dropShared, noopDrop, reopenDropped         bool
+		dropBeforeRestart, reopenDroppedBeforeRestart, acceptedGhost bool
+	)
+	closeHandle := func(h *handle) {
+		if !h.closed {
+			_ = h.db.Close()
+			h.closed = true
+		}
+		if stores[h.req] == h {
+			delete(stores, h.req)
+		}
+	}
+	// open performs OpenDB(req) on the current producer and judges it against the model.
+	open := func(req, phase string) *handle {
+		r := cur.RouteOf(req)
+		if r != routes[req] {
+			t.Fatalf("C26: RouteOf(%q) changed from %+v to %+v (%s)\n%s", req, routes[req], r, phase, c)
+		}
+		if excludedTable(r.Table) {
+			c.logf("%s: skip %q (table %q is a prefix of a metadata key: excluded by the property)", phase, req, r.Table)
+			return nil
+		}
+		want, why := m.expect(req, r, live)
+		db, err := cur.OpenDB(req)
+		c.logf("%s: OpenDB(%q) -> route %+v, err=%v (expected %s: %s)", phase, req, r, err, want, why)
+		if (err == nil) != (want == expectOK) {
+			t.Fatalf("C26: OpenDB(%q) routed to %+v returned err=%v, expected %s (%s)\n%s", req, r, err, want, why, c)
+		}
+		if err != nil {
+			if strings.Contains(why, "overlaps") {
+				refusedOverlap++
 			}
-			if excludedTable(r.Table) {
-				c.logf("%s: skip %q (table %q is a prefix of a metadata key: excluded by the property)", phase, req, r.Table)
+			return nil
+		}
+		loc := dbLoc{r.Type, r.Name}
+		rec := m.find(req)
+		if rec == nil {
+			for _, g := range ghosts {
+				if g.Loc == loc && g.Req != req && prefixRelated(g.Table, r.Table) {
+					acceptedGhost = true // would have been refused before the drop
+				}
+			}
+			for _, old := range m.records {
+				if old.Loc == loc {
+					shared = true
+				}
+			}
+			if _, ok := dropped[req]; ok {
+				reopenDropped = true
+				delete(dropped, req)
+			}
+			m.records = append(m.records, record{Req: req, Loc: loc, Table: r.Table, Idx: m.nextIdx})
+			m.nextIdx++
+			opensRecorded++
+			rec = &m.records[len(m.records)-1]
+			// a newly recorded request starts with an empty store (also in a re-created database)
+			it := db.NewIterator(nil, nil)
+			for it.Next() {
+				if r.Table == "" && isMeta(it.Key()) {
+					continue
+				}
+				t.Fatalf("C26: store of the newly recorded request %q (db %s/%q table %q) already holds key %q (%s)\n%s",
+					req, r.Type, r.Name, r.Table, it.Key(), phase, c)
+			}
+			it.Release()
+			if err := db.Put(markerKey(rec.Idx), markerVal(rec.Idx)); err != nil {
+				t.Fatalf("C26: Put through the store of %q failed: %v\n%s", req, err, c)
+			}
+			// the marker must be in the database and table RouteOf names
+			raw := e.raw(r.Type, r.Name)
+			if v, ok := raw[r.Table+string(markerKey(rec.Idx))]; !ok || !bytes.Equal(v, markerVal(rec.Idx)) {
+				t.Fatalf("C26: marker of request %q not found in raw database %s/%q under table %q (raw: %s)\n%s",
+					req, r.Type, r.Name, r.Table, crashlog.FormatDB(raw), c)
+			}
+		} else {
+			reopened++
+			v, err := db.Get(markerKey(rec.Idx))
+			if err != nil || !bytes.Equal(v, markerVal(rec.Idx)) {
+				t.Fatalf("C26: re-opened request %q (%s) does not reach its database/table: marker %s reads %q, %v\n%s",
+					req, phase, markerKey(rec.Idx), v, err, c)
+			}
+		}
+		h := &handle{req: req, loc: loc, db: db}
+		handles = append(handles, h)
+		stores[req] = h
+		return h
+	}
+	// drop closes every handle of the database of h and drops it through h.
+	drop := func(h *handle, phase string) {
+		r := routes[h.req]
+		for _, o := range handles {
+			if o.loc == h.loc {
+				closeHandle(o)
+			}
+		}
+		h.db.Drop()
+		if r.NoDrop {
+			// Drop is a no-op for a NoDrop route: data and records stay (checked by the isolation checks)
+			c.logf("%s: Close+Drop through %q (NoDrop route): database %s/%q stays", phase, h.req, h.loc.Type, h.loc.Name)
+			noopDrop = true
+			return
+		}
+		kept := m.records[:0:0]
+		var gone []string
+		for _, rec := range m.records {
+			if rec.Loc == h.loc {
+				ghosts = append(ghosts, rec)
+				dropped[rec.Req] = rec
+				gone = append(gone, rec.Req)
 				continue
 			}
-			want, why := m.expect(req, r, live)
-			db, err := p.OpenDB(req)
-			c.logf("%s: OpenDB(%q) -> route %+v, err=%v (expected %s: %s)", phase, req, r, err, want, why)
-			if (err == nil) != (want == expectOK) {
-				t.Fatalf("C26: OpenDB(%q) routed to %+v returned err=%v, expected %s (%s)\n%s", req, r, err, want, why, c)
+			kept = append(kept, rec)
+		}
+		m.records = kept
+		anyDrop = true
+		if len(gone) >= 2 {
+			dropShared = true
+		}
+		c.logf("%s: Close+Drop through %q: database %s/%q dropped, records of %q are gone", phase, h.req, h.loc.Type, h.loc.Name, gone)
+		if raw := e.raw(h.loc.Type, h.loc.Name); len(raw) != 0 {
+			t.Fatalf("C26: database %s/%q still holds keys after Close+Drop through the store of %q (%s): %s\n%s",
+				h.loc.Type, h.loc.Name, h.req, phase, crashlog.FormatDB(raw), c)
+		}
+	}
+	runSteps := func(steps []step, phase string) {
+		for _, s := range steps {
+			h := open(s.Req, phase)
+			if h != nil && s.Drop {
+				drop(h, phase)
 			}
-			if err != nil {
-				if strings.Contains(why, "overlaps") {
-					refusedOverlap++
-				}
-				continue
-			}
-			rec := m.find(req)
-			if rec == nil {
-				m.records = append(m.records, record{Req: req, Loc: dbLoc{r.Type, r.Name}, Table: r.Table, Idx: len(m.records)})
-				rec = &m.records[len(m.records)-1]
-				if err := db.Put(markerKey(rec.Idx), markerVal(rec.Idx)); err != nil {
-					t.Fatalf("C26: Put through the store of %q failed: %v\n%s", req, err, c)
-				}
-				// the marker must be in the database and table RouteOf names
-				raw := e.raw(r.Type, r.Name)
-				if v, ok := raw[r.Table+string(markerKey(rec.Idx))]; !ok || !bytes.Equal(v, markerVal(rec.Idx)) {
-					t.Fatalf("C26: marker of request %q not found in raw database %s/%q under table %q (raw: %s)\n%s",
-						req, r.Type, r.Name, r.Table, crashlog.FormatDB(raw), c)
-				}
-			} else {
-				reopened++
-				v, err := db.Get(markerKey(rec.Idx))
-				if err != nil || !bytes.Equal(v, markerVal(rec.Idx)) {
-					t.Fatalf("C26: re-opened request %q (%s) does not reach its database/table: marker %s reads %q, %v\n%s",
-						req, phase, markerKey(rec.Idx), v, err, c)
-				}
-			}
-			stores[req] = db
 		}
 	}
 	checkIsolation := func(phase string) {
 		for _, rec := range m.records {
-			s := stores[rec.Req]
+			h := stores[rec.Req]
+			if h == nil {
+				// no open store (closed for a drop, or not yet opened after the restart): re-open
+				if h = open(rec.Req, phase+", isolation check"); h == nil {
+					t.Fatalf("C26: harness error: recorded request %q was skipped\n%s", rec.Req, c)
+				}
+			}
+			s := h.db
 			seen := []string{}
 			it := s.NewIterator(nil, nil)
 			for it.Next() {
@@ -731,6 +876,11 @@ func routingProperty(t *rapid.T, wild bool, st *stats.Collector) {
 			}
 			byLoc[rec.Loc][rec.Table+string(markerKey(rec.Idx))] = true
 		}
+		for _, g := range ghosts {
+			if byLoc[g.Loc] == nil {
+				byLoc[g.Loc] = map[string]bool{} // dropped and not recorded again: no data keys
+			}
+		}
 		for loc, want := range byLoc {
 			raw := e.raw(loc.Type, loc.Name)
 			for k := range raw {
@@ -745,18 +895,104 @@ func routingProperty(t *rapid.T, wild bool, st *stats.Collector) {
 			}
 		}
 	}
-	runSequence(p0, "first producer")
+	// shutdown closes every handle and the producer (a node going down).
+	shutdown := func() {
+		for _, h := range handles {
+			closeHandle(h)
+		}
+		handles, stores, dropped = nil, map[string]*handle{}, map[string]record{}
+		if c.kind != kindFlaggedMem {
+			// closes the handles flaggedproducer keeps; a memorydb would lose its content on Close
+			_ = cur.Close()
+		}
+		cur = nil
+	}
+	// verifyProbe builds producers with a (mutated) table over the same databases and judges Verify()
+	// against the requests currently recorded.
+	verifyProbe := func(table2 tableSpec, phase string) (cls string, moved bool) {
+		ps2 := construct(t, c, e, table2, 2)
+		if len(ps2) == 0 {
+			return "mutated_table_rejected", false
+		}
+		p2 := ps2[0]
+		var movedReqs []string
+		for _, rec := range m.records {
+			r := p2.RouteOf(rec.Req)
+			if r2 := ps2[1].RouteOf(rec.Req); r2 != r {
+				t.Fatalf("C26: RouteOf(%q) differs between identically configured producers (mutated table): %+v vs %+v\n%s\n%s", rec.Req, r, r2, table2, c)
+			}
+			if !sameTarget(r, rec) {
+				movedReqs = append(movedReqs, fmt.Sprintf("%q: %s/%q table %q -> %s/%q table %q", rec.Req, rec.Loc.Type, rec.Loc.Name, rec.Table, r.Type, r.Name, r.Table))
+			}
+		}
+		err := p2.Verify()
+		c.logf("%s: mutated %s\n    Verify() = %v; moved recorded requests: %v", phase, table2, err, movedReqs)
+		if (err != nil) != (len(movedReqs) > 0) {
+			recorded := []string{}
+			for _, rec := range m.records {
+				recorded = append(recorded, fmt.Sprintf("%q in %s/%q table %q", rec.Req, rec.Loc.Type, rec.Loc.Name, rec.Table))
+			}
+			t.Fatalf("C26: Verify() = %v (%s), but of the currently recorded requests %v the new table routes differently: %v\n%s\n%s",
+				err, phase, recorded, movedReqs, table2, c)
+		}
+		if len(movedReqs) > 0 {
+			cls, moved = "verify_detects_moved_request", true
+		} else {
+			cls = "verify_passes_on_mutated_table"
+			// nothing moved: every recorded request is still reachable through the new table
+			for _, rec := range m.records {
+				db, err := p2.OpenDB(rec.Req)
+				if err != nil {
+					t.Fatalf("C26: Verify() passed but OpenDB(%q) fails with the new table (%s): %v\n%s", rec.Req, phase, err, c)
+				}
+				if v, err := db.Get(markerKey(rec.Idx)); err != nil || !bytes.Equal(v, markerVal(rec.Idx)) {
+					t.Fatalf("C26: Verify() passed but request %q does not reach its marker with the new table (%s) (%q, %v)\n%s", rec.Req, phase, v, err, c)
+				}
+				_ = db.Close()
+			}
+		}
+		if c.kind != kindFlaggedMem {
+			_ = p2.Close()
+			_ = ps2[1].Close()
+		}
+		return cls, moved
+	}
+
+	// ---- 2a. first run of the node
+	cur = ps[0]
+	runSteps(c.steps, "first producer")
 	checkIsolation("first producer")
 	checkRouteDeterminism(t, c, ps[:2], c.table, probes) // routing does not depend on what was opened
+	dropBeforeRestart, reopenDroppedBeforeRestart = anyDrop, reopenDropped
+	reopenedFirst := reopened
+	recordedFirst := len(m.records)
 
-	shared := false
-	locCount := map[dbLoc]int{}
-	for _, rec := range m.records {
-		locCount[rec.Loc]++
-		if locCount[rec.Loc] >= 2 {
-			shared = true
-		}
+	// ---- 3. restart over the same databases: mutated table first (Verify only), then the same table
+	shutdown()
+	tableR := mutateTable(t, c.table, m, wild)
+	clsR, movedR := verifyProbe(tableR, "after restart")
+	classes = append(classes, "restart_probe_"+clsR)
+	if movedR {
+		nontrivial = true
 	}
+	ps1 := construct(t, c, e, c.table, 1)
+	if len(ps1) != 1 {
+		t.Fatalf("C26: the table was accepted before the restart and is rejected after it\n%s", c)
+	}
+	cur = ps1[0]
+	if err := cur.Verify(); err != nil {
+		t.Fatalf("C26: Verify() of a restarted producer with the unchanged table fails: %v\n%s", err, c)
+	}
+	dropsBefore := len(ghosts)
+	runSteps(c.steps2, "restarted producer")
+	checkIsolation("restarted producer") // re-opens every recorded request that steps2 did not open
+	if recordedFirst > 0 {
+		classes = append(classes, "reopen_after_restart")
+	}
+	if err := cur.Verify(); err != nil {
+		t.Fatalf("C26: Verify() of the restarted producer with the unchanged table fails after its opens: %v\n%s", err, c)
+	}
+
 	if shared {
 		classes = append(classes, "two_requests_share_db")
 		nontrivial = true
@@ -764,85 +1000,56 @@ func routingProperty(t *rapid.T, wild bool, st *stats.Collector) {
 	if refusedOverlap > 0 {
 		classes = append(classes, "overlap_refused")
 	}
-	if reopened > 0 {
+	if reopenedFirst > 0 {
 		classes = append(classes, "reopen_same_producer")
 	}
-	if len(m.records) == 0 {
+	if opensRecorded == 0 {
 		classes = append(classes, "nothing_opened")
 	}
+	if anyDrop {
+		classes = append(classes, "history_with_drop")
+	}
+	if noopDrop {
+		classes = append(classes, "drop_on_nodrop_route_is_noop")
+	}
+	if dropShared {
+		classes = append(classes, "drop_removes_records_of_2plus_requests")
+	}
+	if reopenDropped {
+		classes = append(classes, "drop_then_reopen_same_producer")
+	}
+	if acceptedGhost {
+		classes = append(classes, "overlap_with_dropped_record_accepted")
+	}
+	if dropBeforeRestart {
+		classes = append(classes, "restart_after_drop")
+	}
+	if reopenDroppedBeforeRestart {
+		classes = append(classes, "restart_after_drop_and_reopen")
+	}
+	if len(ghosts) > dropsBefore {
+		classes = append(classes, "drop_after_restart")
+	}
 
-	// ---- 3. restart over the same databases with the same table
-	if c.kind != kindFlaggedMem {
-		// closes the old handles of the crashlog backends; memorydb would lose its content on Close
-		_ = p0.Close()
-	}
-	ps1 := construct(t, c, e, c.table, 1)
-	if len(ps1) != 1 {
-		t.Fatalf("C26: the table was accepted before the restart and is rejected after it\n%s", c)
-	}
-	p1 := ps1[0]
-	if err := p1.Verify(); err != nil {
-		t.Fatalf("C26: Verify() of a restarted producer with the unchanged table fails: %v\n%s", err, c)
-	}
-	nBefore := len(m.records)
-	runSequence(p1, "restarted producer")
-	if len(m.records) != nBefore {
-		t.Fatalf("C26: harness error: a request was newly recorded by the restarted producer\n%s", c)
-	}
-	checkIsolation("restarted producer")
-	if nBefore > 0 {
-		classes = append(classes, "reopen_after_restart")
-	}
-
-	// ---- 4. mutated table and Verify
+	// ---- 4. another restart with a mutated table and Verify
+	shutdown()
 	table2 := c.table
 	nMut := rapid.IntRange(1, 2).Draw(t, "nMutations")
 	for i := 0; i < nMut; i++ {
 		table2 = mutateTable(t, table2, m, wild)
 	}
-	ps2 := construct(t, c, e, table2, 2)
-	if len(ps2) == 0 {
-		classes = append(classes, "mutated_table_rejected")
-	} else {
-		p2 := ps2[0]
-		var moved []string
-		for _, rec := range m.records {
-			r := p2.RouteOf(rec.Req)
-			if r2 := ps2[1].RouteOf(rec.Req); r2 != r {
-				t.Fatalf("C26: RouteOf(%q) differs between identically configured producers (mutated table): %+v vs %+v\n%s\n%s", rec.Req, r, r2, table2, c)
-			}
-			if !sameTarget(r, rec) {
-				moved = append(moved, fmt.Sprintf("%q: %s/%q table %q -> %s/%q table %q", rec.Req, rec.Loc.Type, rec.Loc.Name, rec.Table, r.Type, r.Name, r.Table))
-			}
-		}
-		err := p2.Verify()
-		c.logf("mutated %s\n    Verify() = %v; moved recorded requests: %v", table2, err, moved)
-		if (err != nil) != (len(moved) > 0) {
-			t.Fatalf("C26: Verify() = %v, but recorded requests routed differently by the new table: %v\n%s", err, moved, c)
-		}
-		if len(moved) > 0 {
-			classes = append(classes, "verify_detects_moved_request")
-			nontrivial = true
-		} else {
-			classes = append(classes, "verify_passes_on_mutated_table")
-			// nothing moved: every recorded request is still reachable through the new table
-			for _, rec := range m.records {
-				db, err := p2.OpenDB(rec.Req)
-				if err != nil {
-					t.Fatalf("C26: Verify() passed but OpenDB(%q) fails with the new table: %v\n%s", rec.Req, err, c)
-				}
-				if v, err := db.Get(markerKey(rec.Idx)); err != nil || !bytes.Equal(v, markerVal(rec.Idx)) {
-					t.Fatalf("C26: Verify() passed but request %q does not reach its marker with the new table (%q, %v)\n%s", rec.Req, v, err, c)
-				}
-			}
-		}
+	cls2, moved2 := verifyProbe(table2, "final")
+	classes = append(classes, cls2)
+	if moved2 {
+		nontrivial = true
 	}
 
 	sort.Strings(classes)
-	st.Case(stats.Hash(c.table.String(), c.requests, c.kind, table2.String()), nontrivial, classes...)
-	st.Class("opens_recorded", int64(len(m.records)))
+	st.Case(stats.Hash(c.table.String(), fmtSteps(c.steps), fmtSteps(c.steps2), c.kind, tableR.String(), table2.String()), nontrivial, classes...)
+	st.Class("opens_recorded", int64(opensRecorded))
+	st.Class("databases_dropped", int64(len(ghosts)))
 	st.Sample(func() interface{} {
-		return map[string]interface{}{"table": c.table.String(), "requests": c.requests, "backends": c.kind, "steps": c.log}
+		return map[string]interface{}{"table": c.table.String(), "history": fmtSteps(c.steps), "history_after_restart": fmtSteps(c.steps2), "backends": c.kind, "steps": c.log}
 	})
 }
 
